@@ -13,7 +13,7 @@ F = lambda *p: ("f", tuple(p))
 OP = lambda op, a, b: ("op", op, a, b)
 
 SLOT_TYPES = ["u8", "i8", "u16", "i16be", "bcd8", "u32", "enum8", "inner", "dyn", "pars", "bitsT", "anon",
-              "arr_u8x2", "arr_auto", "arr_i16x2", "arr_inner", "f32", "bcd16", "u64", "senum8", "arr_bits", "i32", "zero_tail", "arr_u24x2", "arr_tri", "enumk8", "f64", "arr_par2"]
+              "arr_u8x2", "arr_auto", "arr_i16x2", "arr_inner", "f32", "bcd16", "u64", "senum8", "arr_bits", "i32", "zero_tail", "arr_u24x2", "arr_tri", "enumk8", "f64", "arr_par2", "anon_arr"]
 STARTS = ["const", "off", "next", "next+1", "off+1", "overlap", "prevval", "2*off+1", "fwdval", "off-2"]
 CONDS = ["always", "tag==1", "tag==2", "off<3", "flg", "flg&&tag==1", "flg||tag==1", "present_prev", "tag==5",
          "param", "prev==7", "tag!=0&&len==1", "prev==7&&tag==1", "tag==1&&prev==7", "prev==7||tag==1",
@@ -27,7 +27,7 @@ PARAMS = ["none", "uint4", "int4", "enum"]
 
 DEFAULT_SIZE = {"u8": 1, "i8": 1, "u16": 2, "i16be": 2, "bcd8": 1, "u32": 4, "enum8": 1, "inner": 2, "dyn": 3, "pars": 2,
                 "bitsT": 1, "anon": 1, "arr_u8x2": 2, "arr_auto": None, "arr_i16x2": 4, "arr_inner": 4, "f32": 4,
-                "bcd16": 2, "u64": 8, "senum8": 1, "arr_bits": 2, "i32": 4, "zero_tail": 0, "arr_u24x2": 6, "arr_tri": 6, "enumk8": 1, "f64": 8, "arr_par2": 4}
+                "bcd16": 2, "u64": 8, "senum8": 1, "arr_bits": 2, "i32": 4, "zero_tail": 0, "arr_u24x2": 6, "arr_tri": 6, "enumk8": 1, "f64": 8, "arr_par2": 4, "anon_arr": 3}
 INT_SCALARS = {"u8", "i8", "u16", "i16be", "bcd8", "u32", "bcd16", "u64", "i32"}
 
 
@@ -194,6 +194,10 @@ def program(ch, menu=None):
         elif st == "arr_tri":
             typ = ("array", ("struct", PX + "Tri", ()), C(2))
             need.add("Tri")
+        elif st == "anon_arr":
+            # an array inside a bits block that does not reach the end of its container
+            typ = ("anon", [A.Field("l%d" % i, ("array", ("UInt", 3), C(4)), C(4), C(12)),
+                            A.Field("v%d" % i, ("UInt", None), C(16), C(8))])
         elif st == "arr_par2":
             # elements take two parameters with (usually) different values: argument order matters
             typ = ("array", ("struct", PX + "Par2", (F("len"), F("off"))), C(2))
